@@ -16,7 +16,7 @@ from sqlalchemy import event as sa_event
 from sqlalchemy import text
 from sqlalchemy.exc import OperationalError
 
-from verif import canon, scen
+from verif import canon, fakeray, scen
 from verif import framework as fw
 
 from resonaate.physics.time.stardate import datetimeToJulianDate  # noqa: E402
@@ -281,11 +281,22 @@ def _run_audit(res, item):
         return orig_step()
 
     sc.stepForward = counted
+    # what the task-execution jobs handed to the driver (the records "the simulation held"), straight from the seam
+    collected = {"obs": [], "miss": []}
+
+    def on_delivery(name, result):
+        if name.endswith("asyncExecuteTasking"):
+            collected["obs"] += [(int(o.sensor_id), int(o.target_id), float(o.julian_date)) for o in result.observations]
+            collected["miss"] += [(int(m.sensor_id), int(m.target_id), float(m.julian_date)) for m in result.missed_observations]
+
+    fakeray.DELIVERY_HOOK = on_delivery
     try:
         for upto in plan:
             sc.propagateTo(datetimeToJulianDate(START + timedelta(seconds=upto * physics)))
     except Exception as exc:  # noqa: BLE001
         err = f"{type(exc).__name__}: {exc}"
+    finally:
+        fakeray.DELIVERY_HOOK = None
     nontriv = output != physics or len(plan) > 1 or hist != "none" or span_steps is not None
     res.case("audit/run", case, err is None and calls == n, nontrivial=nontriv, signature="C09/run/error_or_step_count",
              observed={"error": err, "steps": calls}, expected={"steps": n}, item=item)
@@ -296,6 +307,18 @@ def _run_audit(res, item):
     res.case("audit/output_epochs", case, got_times == want_times, nontrivial=nontriv, signature="C09/saves/output_epochs_wrong",
              observed=got_times, expected=want_times, outcome=f"saves={len(got_times)}", item=item)
     _audit(res, sc, saves, case, item, truth_only=not est)
+    if est and err is None:
+        # every observation / miss collected up to the last save is stored exactly once, and nothing else is
+        last_save_jd = max(s_["jd"] for s_ in saves)
+        with sc.database.engine.connect() as conn:
+            for table, key in (("observations", "obs"), ("missed_observations", "miss")):
+                stored = sorted((int(r[0]), int(r[1]), float(r[2]))
+                                for r in _rows(conn, f"SELECT sensor_id, target_id, julian_date FROM {table}"))
+                want = sorted(r for r in collected[key] if r[2] <= last_save_jd + 1e-9)
+                res.case(f"audit/collected_{key}_stored", case, stored == want, nontrivial=len(want) > 0 and output != physics,
+                         signature=f"C09/{table}/{'lost' if len(stored) < len(want) else 'extra' if len(stored) > len(want) else 'different'}",
+                         observed={"stored": len(stored)}, expected={"collected_up_to_last_save": len(want)},
+                         outcome=f"{key}={len(want)}", item=item)
     res.observe(canon.state_hash(canon.dump_db(sc.database)))
     res.states += calls + 1
     res.transitions += calls
